@@ -265,6 +265,19 @@ CLAIMED.update({
             "DESIGN.md 5 C33"),
 })
 
+CLAIMED.update({
+    "C32": ("model_checking",
+            "SmithDoc.tla models the generator's phases (order, fresh names, implements closure and backfill with extensions, "
+            "fragments over earlier fragments, named operations, pruning); every terminal state satisfies DocOK (model-checked). "
+            "Byte strings of many lengths and entropies are given to the real DocumentBuilder twice; the text is parsed, validated "
+            "and projected to the facts DocOK talks about; operations are generated against parsed schemas. TLC (Trace_Smith) "
+            "requires determinism, no syntax error, validity and DocOK on every line.",
+            "Validity is apollo-compiler's verdict; SmithDoc abstracts types, arguments and values. Two known findings "
+            "(unbounded selection nesting, todo!() on union-typed fields).",
+            "TLA+ state machine of the generator model-checked by TLC; TLC trace validation of recorded generator outputs",
+            "DESIGN.md 5 C32"),
+})
+
 NOT_APPLICABLE = {}
 
 ALL = ["C%02d" % i for i in range(1, 34)]
